@@ -241,6 +241,9 @@ func Worker(t *testing.T) {
 		sc.Base().Seed = runSeed
 		res := p.Run(t, sc, NewRandomSource(sc.Base().Sched, runSeed), false)
 		fmt.Printf("oneseed: class=%q aborted=%q known=%v steps=%d msg=%s\n", res.Class, res.Aborted, res.Known, res.Steps, trunc(res.Message, 300))
+		if p.Shape != nil {
+			fmt.Printf("oneseed: shape %s\n", trunc(p.Shape(sc), 400))
+		}
 		if res.Class != "" {
 			att := attribute(t, p, sc, res.Trace, findings, nil)
 			fmt.Printf("oneseed: attributed to %d findings\n", len(att))
